@@ -29,6 +29,27 @@ PROPS = {
                 preds=["StopRoles", "PrefixAsUnordered", "NoStopAsUnordered", "Frozen (action property)"]),
 }
 
+_NOTE = ("Trusted: TLC and the CommunityModules Json reader; the harness builder/observer (no parsing logic of its own); Go's strconv as the "
+         "conversion oracle the property itself names; exhaustive only up to the stated argv length over the stated alphabets, random beyond.")
+
+
+def _mt(ref, text):
+    return dict(engine="getopt-tla", level="model_checking", ref=ref, note=_NOTE, text=text,
+                technique="TLA+ specification model-checked by TLC + TLC trace validation of executions of the real library")
+
+
+MANIFEST_TEXT = {
+    "C01": _mt("DESIGN.md 5 C01", "The spec's ScalarExact/FlagSemantics/CalledExact predicates hold in every state TLC reaches for all argv up to the bound over the scalar families (3 modes); every one of those argv plus seeded random definitions with wild value texts is executed on the real library and its outcome (values via strconv oracle, Called, error) validated against the spec by TLC."),
+    "C02": _mt("DESIGN.md 5 C02", "IntakeCount/StoredInOrder/MapStored recompute each multi-value option's content declaratively from ghost token roles and TLC checks them on all argv up to the bound over the (min,max) grid x 4 element types; the same cases and random ones are run on the real library and validated."),
+    "C03": _mt("DESIGN.md 5 C03", "Conservation (remaining = tokens whose ghost role is text/pass/tail/stop, in order) is a TLC invariant over token kinds x 3 modes x 3 unknown modes x require-order x a two-level command tree; real outcomes of every such argv and of random trees are validated against the spec."),
+    "C04": _mt("DESIGN.md 5 C04", "TerminatorRoles plus the action property Frozen (no option/command/unknown bookkeeping changes once `--` was reached) checked by TLC with `--` at every position after every option kind; real outcomes validated."),
+    "C05": _mt("DESIGN.md 5 C05", "Relational invariant UniquePrefixEqFull (run on the command line with every unique prefix replaced by the full name gives the same outcome and CalledAs), ExactWins and AmbiguousRejectedAll checked by TLC over nested-prefix name sets; real outcomes incl. the candidate list validated."),
+    "C06": _mt("DESIGN.md 5 C06", "AliasEqPrimary (relational), CalledExact, UntouchedKeepDefault and the frame action property checked by TLC for all 12 kinds with aliases; the harness additionally asserts pointer / *Var / Value(name) / Value(alias) agreement on every executed case."),
+    "C07": _mt("DESIGN.md 5 C07", "LongModeIndependent and RewriteEquiv (outcome equals the outcome of the documented rewriting, written from the documentation table, not from the splitter) checked by TLC over single-dash tokens incl. multibyte letters; real outcomes in all 3 modes validated."),
+    "C08": _mt("DESIGN.md 5 C08", "UnknownNeverDropped checked by TLC over trees with wrappers and unknown tokens before/after command tokens in 3 unknown modes; real error / warning / remaining validated."),
+    "C09": _mt("DESIGN.md 5 C09", "StopRoles, PrefixAsUnordered and NoStopAsUnordered (relational: state before the stop point equals the state of an unordered parse of the prefix) checked by TLC; real outcomes validated."),
+}
+
 MC_CFG = """SPECIFICATION Spec
 CONSTANTS
   FamFile = "%(fam)s"
